@@ -10,6 +10,8 @@ import (
 	"fmt"
 	"io"
 	"log/slog"
+	"net"
+	"os"
 	"sort"
 	"strings"
 	"sync"
@@ -385,6 +387,9 @@ func (x *Exec) middleware(ctx context.Context, idx int, outcome string) (context
 		x.retainStr(v)
 	}
 	x.cb(ctx, x.withCtx(ctx, M{"name": "mw", "i": idx}, false))
+	if outcome == "failnil" {
+		return nil, errors.New("middleware failed") // a failing handler may well return no context at all
+	}
 	if outcome != "ok" {
 		return ctx, errors.New("middleware failed")
 	}
@@ -404,6 +409,13 @@ func BuildErr(e M) error {
 		return errors.New("boom")
 	}
 	err := errors.New(S(e, "base"))
+	// a well-known sentinel as the root of the chain (what a handler gets from the library or the standard
+	// library and passes on): reported like any other error, by its text
+	for text, sentinel := range sentinels {
+		if S(e, "base") == text {
+			err = sentinel
+		}
+	}
 	layers := L(e, "layers")
 	for i := len(layers) - 1; i >= 0; i-- {
 		l := AsM(layers[i])
@@ -429,6 +441,17 @@ func BuildErr(e M) error {
 	}
 	return err
 }
+
+var sentinels = map[string]error{
+	io.EOF.Error():                 io.EOF,
+	io.ErrUnexpectedEOF.Error():    io.ErrUnexpectedEOF,
+	net.ErrClosed.Error():          net.ErrClosed,
+	context.Canceled.Error():       context.Canceled,
+	os.ErrDeadlineExceeded.Error(): os.ErrDeadlineExceeded,
+}
+
+// SentinelTexts are the texts of those sentinels (for the generators).
+var SentinelTexts = []string{io.EOF.Error(), io.ErrUnexpectedEOF.Error(), net.ErrClosed.Error(), context.Canceled.Error(), os.ErrDeadlineExceeded.Error()}
 
 func (x *Exec) parse(ctx context.Context, query string) (wire.PreparedStatements, error) {
 	x.retainStr(query)
